@@ -53,7 +53,7 @@ pub fn exec(ctx: &mut Ctx, case: &Case) {
 
 pub fn generate(ctx: &mut Ctx) {
     let mut bi = 0u64;
-    let maxlen = ctx.by_tier(2u64, 3u64);
+    let maxlen = if ctx.tiny() { 0 } else { ctx.by_tier(2u64, 3u64) };
     for pre in PRES {
         for ui in UIS {
             for h in HOSTS {
@@ -81,7 +81,7 @@ pub fn generate(ctx: &mut Ctx) {
             }
         }
     }
-    let n = ctx.by_tier(20_000u64, 1_000_000u64) / ctx.nshards;
+    let n = ctx.random_budget(640, 20_000, 1_000_000);
     for i in 0..n {
         let mut rng = ctx.rng("hist", i);
         let iri = rng.chance(1, 2);
